@@ -10,6 +10,11 @@ TECH = ('symbolic execution of the real Python code (CrossHair 0.0.110 + z3 '
         '5.1, all paths within stated bounds), counterexamples replayed '
         'natively')
 
+TECH_K = (TECH + '; plus float conversion kernels read from /repo with ast, '
+          'translated to z3 Float64 terms and decided by z3 for all finite '
+          'doubles (vlib/kernelsmt.py), counterexamples replayed on the '
+          'real methods')
+
 CLAIMED = {
     'C01': dict(
         category='translation_validation',
@@ -48,6 +53,7 @@ CLAIMED = {
               'is not built.'),
         design='DESIGN.md 4/C02'),
     'C03': dict(
+        technique=TECH_K,
         category='other',
         text=('A run-time monitor (machine-fault traps, typed reads, type '
               'stability of every storage cell, valid instruction starts, '
@@ -143,6 +149,7 @@ CLAIMED = {
              'not call functions); floats concrete.',
         design='DESIGN.md 4/C13'),
     'C07': dict(
+        technique=TECH_K,
         category='other',
         text=('For each BASIC template feeding a builtin / operator / '
               'device statement, with all operands symbolic: on every path '
@@ -202,6 +209,7 @@ CLAIMED = {
              'subject.',
         design='DESIGN.md 4/C17'),
     'C18': dict(
+        technique=TECH_K,
         category='other',
         text=('The real TerminalDevice._exec_input runs on a bare CPU with '
               'a SYMBOLIC response line (then a good one): for every line '
@@ -334,8 +342,11 @@ def main():
              'kind_free_text': ('CrossHair symbolic execution of the real '
                                 'qbee/qvm Python code with adaptations '
                                 '(vlib/chfix.py), z3 deciding every branch; '
-                                'kernelsmt: own Python-AST -> z3 BV/FP '
-                                'translator for leaf kernels')},
+                                'kernelsmt (vlib/kernelsmt.py): own '
+                                'Python-AST -> z3 Float64 translator for the '
+                                'float -> INTEGER/LONG conversion kernels '
+                                'and the SINGLE range check (C03, C07, '
+                                'C18)')},
         ],
         'checks': checks,
         'not_applicable': na,
